@@ -112,6 +112,20 @@ def graph_of(obj):
     return MU.graph_state(obj.vrptw if hasattr(obj, "vrptw") else obj)
 
 
+def dummy_free(name):
+    """the path-based heuristic invents names for the dummy nodes it adds (`mf_Dum…`); which name it picks is not part of any property"""
+    return "mf_Dum" if str(name).startswith("mf_Dum") else name
+
+
+def canon_graph(g):
+    """(nodes, arcs) for a comparison of two graph states: arcs as a sorted list (the arc table is a mapping), invented dummy-node
+    names replaced by the node's position"""
+    ren = {n[0]: f"mf_Dum@{i}" for i, n in enumerate(g["nodes"]) if str(n[0]).startswith("mf_Dum")}
+    nodes = [tuple([ren.get(n[0], n[0])] + list(n[1:])) for n in g["nodes"]]
+    arcs = sorted(tuple([a[0], a[1], ren.get(a[2], a[2]), ren.get(a[3], a[3])] + list(a[4:])) for a in g["arcs"])
+    return nodes, arcs
+
+
 # ------------------------------------------------------------------ model reply parsing
 
 def parse_mp(groups, k):
@@ -161,12 +175,31 @@ def model_dense(mp):
                 c=mp["c"], Q=dense_from_triples(mp["Q"], mp["n"], mp["n"]))
 
 
+def canon_rows(A, b):
+    """the linear constraints `A x = b` as a sorted list of rows `(coefficients…, rhs)`, each with its first non-zero entry positive:
+    the properties speak about the SET of equations (and about |Ax-b|², which neither the order of the rows nor the sign of a row
+    changes), not about how the object lists them"""
+    out = []
+    for row, rhs in zip(A, b):
+        r = list(row) + [rhs]
+        lead = next((v for v in r if v != 0), 0)
+        out.append(tuple(-v for v in r) if lead < 0 else tuple(r))
+    return sorted(out)
+
+
 def compare_data(res, impl, md, label):
     if impl["n"] != md["n"]:
         res.disagree(f"{label} num variables", impl["n"], md["n"])
         return False
     ok = True
-    for key in ("A", "b", "R", "c", "Q"):
+    if len(impl["A"]) == len(impl["b"]) and len(md["A"]) == len(md["b"]) and len(impl["b"]) == len(md["b"]):
+        if canon_rows(impl["A"], impl["b"]) != canon_rows(md["A"], md["b"]):
+            res.disagree(f"{label} linear constraints (set of rows up to sign)", (impl["A"], impl["b"]), (md["A"], md["b"]))
+            ok = False
+        keys = ("R", "c", "Q")
+    else:
+        keys = ("A", "b", "R", "c", "Q")
+    for key in keys:
         a, b = impl[key], md[key]
         if key in ("A", "R", "Q"):
             # an empty dense matrix has no rows to compare
